@@ -452,3 +452,67 @@ def stage_detect(vlib, impl, model, rng, tier, bump, stats, autoutf_detect, pyco
     for (text, enc, data, ty), il, a, b, dd in list(zip(items, ilines, iout, mout, dout))[:2]:
         samples.append(dict(case=il[:120], implementation=a[:100], model=b[:100], detected=dd[:60]))
     return dict(failing=failing, diffs=diffs, notes=notes[:10], samples=samples, evaluations=len(ilines) + len(mlines) + len(dlines))
+
+
+# ---------------------------------------------------------------- XML streams: pugixml's auto-detection of the encoding
+
+XDET_DOCS = ['<array><value>1</value><value>2</value></array>', '<array/>', '<a><value>7</value></a>',
+             '<?xml version="1.0"?><array><value>1</value></array>', '<?xml version="1.0"?>\n<array>\n\t<value>3</value>\n</array>\n',
+             '<?xml version="1.0" encoding="UTF-16"?><array><value>1</value></array>', "<?xml version='1.0' encoding='utf-8'?><array><value>5</value></array>",
+             '<!--c--><array><value>1</value></array>', '<?p x?><array><value>1</value></array>', ' <array><value>1</value></array>',
+             '\n<array><value>1</value></array>', '<é><value>4</value></é>', '<中><value>4</value></中>', '<array><value>1</value></array><!--é中-->',
+             '\ufeff<array><value>1</value></array>', '<?xml version="1.0" encoding="iso-8859-1"?><array><value>1</value></array>',
+             '<?xml version="1.0" encoding="latin1"?><array><value>1</value></array>']
+
+
+def stage_xdetect(vlib, impl, model, rng, tier, bump, stats, pugi_detect, pycodec, boms):
+    """XML streams in the five encodings with and without BOM, whole, cut short, with another encoding's BOM, with bytes in
+    front: the implementation's load vs the model's (whose encoding is the extracted px_detect), and px_detect vs the
+    Python copy on every byte string.  Ill-formed code unit sequences (pugixml's decoders are lenient, the model's is
+    strict: DECODE-ERR) and declarations naming latin1 are outside the model: counted, not compared"""
+    failing, diffs, notes, samples = [], [], [], []
+    n = 600 if tier == "quick" else 20000
+    encs = list(pycodec)
+    items = []
+    for _ in range(n):
+        text = rng.choice(XDET_DOCS)
+        enc = rng.choice(encs)
+        data = text.encode(pycodec[enc])
+        r = rng.random()
+        if r < 0.35:
+            data = boms[enc] + data
+        elif r < 0.40:
+            data = boms[rng.choice(encs)] + data
+        elif r < 0.43:
+            data = boms[enc] + boms[enc] + data
+        r = rng.random()
+        if r < 0.15 and len(data) > 1:
+            data = data[:rng.randint(1, min(len(data), 9))]
+        elif r < 0.22 and len(data) > 8:
+            data = data[:rng.randint(8, len(data))]
+        elif r < 0.26:
+            data = bytes(rng.randint(1, 3)) + data
+        items.append((text, enc, data))
+    ilines = ["jx.load xml stream 12 - TT %s" % (d.hex() or "-") for (_, _, d) in items]
+    mlines = ["m.load xml stream utf8 12 - TT %s" % (d.hex() or "-") for (_, _, d) in items]
+    dlines = ["m.xdetect %s" % (d.hex() or "-") for (_, _, d) in items]
+    iout = vlib.run_driver(impl, ilines)
+    mout = vlib.run_driver(model, mlines)
+    dout = vlib.run_driver(model, dlines)
+    for (text, enc, data), il, a, b, dd in zip(items, ilines, iout, mout, dout):
+        det = dd.split(" ")[0]
+        latin = "latin1" in text or "iso-8859-1" in text
+        if det != pugi_detect(data) and not (latin and det == "utf8"):
+            notes.append("px_detect (Coq) and the Python copy of guess_buffer_encoding differ on %s: %s vs %s" % (data[:12].hex(), det, pugi_detect(data)))
+        if b == "DECODE-ERR" or (latin and det == "utf8"):
+            bump("xdetect outside the model (%s)" % ("latin1 declared" if latin and b != "DECODE-ERR" else "ill-formed sequence / partial unit"))
+            continue
+        bump("xdetect %s as %s: %s" % (enc, det, "loads" if a.startswith("OK") else "raises"))
+        if a != b:
+            stats["disagreements"] += 1
+            if len(diffs) < 25:
+                diffs.append(dict(driver="jx", case=il, implementation=a[:200], model=b[:200], stream="%s bytes %s.., text %r in %s" % (len(data), data[:16].hex(), text[:60], enc),
+                                  detected=dd[:80], judge="HOLD", why="XML stream: the load predicted with the detected encoding (px_detect) differs from the implementation's"))
+    for (text, enc, data), il, a, b, dd in list(zip(items, ilines, iout, mout, dout))[:2]:
+        samples.append(dict(case=il[:120], implementation=a[:100], model=b[:100], detected=dd[:60]))
+    return dict(failing=failing, diffs=diffs, notes=notes[:10], samples=samples, evaluations=len(ilines) + len(mlines) + len(dlines))
